@@ -257,57 +257,50 @@ Proof.
   rewrite Nat2Z.inj_add, Nat2Z.inj_div, Nat2Z.inj_sub, Nat2Z.inj_add by lia. reflexivity.
 Qed.
 
-(* the general form: whatever the way n and x were obtained (flag or default) *)
-Lemma wrapper_nparses_emitted : forall (args : str) (n x : nat),
-  (if has_flag ch_n args then int_opt ch_n args else Ok 2000%Z) = Ok (Z.of_nat n) ->
-  (if has_flag ch_x args then int_opt ch_x args else Ok 1%Z) = Ok (Z.of_nat x) ->
+(* the general form: whatever the way n and x were obtained (option or default) *)
+Lemma wrapper_nparses_emitted : forall (toks : list str) (on ox : option Z) (n x : nat),
+  int_option ch_n toks = Ok on -> int_option ch_x toks = Ok ox ->
+  match on with Some z => z | None => 2000%Z end = Z.of_nat n ->
+  match ox with Some z => z | None => 1%Z end = Z.of_nat x ->
   0 < x ->
-  wrapper_nparses args = Ok (Z.of_nat (emitted n x)).
+  wrapper_nparses toks = Ok (Z.of_nat (emitted n x)).
 Proof.
-  intros args n x Hn Hxv Hx. unfold wrapper_nparses. rewrite Hn, Hxv. cbn [bind].
+  intros toks on ox n x Hn Hxv En Ex Hx. unfold wrapper_nparses. rewrite Hn, Hxv. cbn [bind].
+  rewrite En, Ex.
   destruct (Z.eqb_spec (Z.of_nat x) 0) as [H0|_]; [lia|].
   now rewrite emitted_Z.
 Qed.
 
-Theorem nparses_eq_emitted : forall (args : str) (n x : nat),
-  has_flag ch_n args = true -> int_opt ch_n args = Ok (Z.of_nat n) ->
-  has_flag ch_x args = true -> int_opt ch_x args = Ok (Z.of_nat x) ->
-  0 < x ->
-  wrapper_nparses args = Ok (Z.of_nat (emitted n x)).
+Theorem nparses_eq_emitted : forall (toks : list str) (n x : nat),
+  int_option ch_n toks = Ok (Some (Z.of_nat n)) -> int_option ch_x toks = Ok (Some (Z.of_nat x)) -> 0 < x ->
+  wrapper_nparses toks = Ok (Z.of_nat (emitted n x)).
 Proof.
-  intros args n x Hfn Hn Hfx Hxv Hx. apply wrapper_nparses_emitted; [| |exact Hx].
-  - now rewrite Hfn.
-  - now rewrite Hfx.
+  intros toks n x Hn Hxv Hx.
+  now apply (wrapper_nparses_emitted toks (Some (Z.of_nat n)) (Some (Z.of_nat x))).
 Qed.
 
-Theorem nparses_eq_emitted_default_n : forall (args : str) (x : nat),
-  has_flag ch_n args = false ->
-  has_flag ch_x args = true -> int_opt ch_x args = Ok (Z.of_nat x) ->
-  0 < x ->
-  wrapper_nparses args = Ok (Z.of_nat (emitted 2000 x)).
+Theorem nparses_eq_emitted_default_n : forall (toks : list str) (x : nat),
+  int_option ch_n toks = Ok None -> int_option ch_x toks = Ok (Some (Z.of_nat x)) -> 0 < x ->
+  wrapper_nparses toks = Ok (Z.of_nat (emitted 2000 x)).
 Proof.
-  intros args x Hfn Hfx Hxv Hx. apply wrapper_nparses_emitted; [| |exact Hx].
-  - rewrite Hfn. reflexivity.
-  - now rewrite Hfx.
+  intros toks x Hn Hxv Hx.
+  now apply (wrapper_nparses_emitted toks None (Some (Z.of_nat x))).
 Qed.
 
-Theorem nparses_eq_emitted_default_x : forall (args : str) (n : nat),
-  has_flag ch_n args = true -> int_opt ch_n args = Ok (Z.of_nat n) ->
-  has_flag ch_x args = false ->
-  wrapper_nparses args = Ok (Z.of_nat (emitted n 1)).
+Theorem nparses_eq_emitted_default_x : forall (toks : list str) (n : nat),
+  int_option ch_n toks = Ok (Some (Z.of_nat n)) -> int_option ch_x toks = Ok None ->
+  wrapper_nparses toks = Ok (Z.of_nat (emitted n 1)).
 Proof.
-  intros args n Hfn Hn Hfx. apply wrapper_nparses_emitted; [| |lia].
-  - now rewrite Hfn.
-  - rewrite Hfx. reflexivity.
+  intros toks n Hn Hxv.
+  apply (wrapper_nparses_emitted toks (Some (Z.of_nat n)) None); try assumption; try reflexivity. lia.
 Qed.
 
-Theorem nparses_eq_emitted_default_nx : forall args : str,
-  has_flag ch_n args = false -> has_flag ch_x args = false ->
-  wrapper_nparses args = Ok (Z.of_nat (emitted 2000 1)).
+Theorem nparses_eq_emitted_default_nx : forall toks : list str,
+  int_option ch_n toks = Ok None -> int_option ch_x toks = Ok None ->
+  wrapper_nparses toks = Ok (Z.of_nat (emitted 2000 1)).
 Proof.
-  intros args Hfn Hfx. apply wrapper_nparses_emitted; [| |lia].
-  - rewrite Hfn. reflexivity.
-  - rewrite Hfx. reflexivity.
+  intros toks Hn Hxv.
+  apply (wrapper_nparses_emitted toks None None); try assumption; try reflexivity. lia.
 Qed.
 
 Lemma emitted_interval_1 : forall n : nat, emitted n 1 = n + 1.
@@ -317,12 +310,11 @@ Proof.
 Qed.
 
 (* -x 0: Python's range() raises ValueError *)
-Lemma wrapper_nparses_x0 : forall args : str,
-  has_flag ch_x args = true -> int_opt ch_x args = Ok 0%Z ->
-  (exists n : Z, (if has_flag ch_n args then int_opt ch_n args else Ok 2000%Z) = Ok n) ->
-  wrapper_nparses args = Raise ValueError.
+Lemma wrapper_nparses_x0 : forall toks : list str,
+  int_option ch_x toks = Ok (Some 0%Z) -> (exists on : option Z, int_option ch_n toks = Ok on) ->
+  wrapper_nparses toks = Raise ValueError.
 Proof.
-  intros args Hfx Hx [n Hn]. unfold wrapper_nparses. rewrite Hn, Hfx, Hx. reflexivity.
+  intros toks Hx [on Hn]. unfold wrapper_nparses. rewrite Hn, Hx. reflexivity.
 Qed.
 
 (* option values are non-negative, hence nparses >= 1 *)
@@ -336,37 +328,46 @@ Qed.
 Lemma num_of_nonneg : forall ds : str, (0 <= num_of ds)%Z.
 Proof. intros ds. unfold num_of. apply num_of_nonneg_acc. lia. Qed.
 
-Lemma int_opt_nonneg : forall (flag : char) (args : str) (z : Z),
-  int_opt flag args = Ok z -> (0 <= z)%Z.
+Lemma int_option_nonneg : forall (flag : char) (toks : list str) (z : Z),
+  int_option flag toks = Ok (Some z) -> (0 <= z)%Z.
 Proof.
-  intros flag args z H. unfold int_opt in H.
-  destruct (last_opt flag args); [|discriminate]. injection H as <-. apply num_of_nonneg.
+  intros flag toks z H. unfold int_option in H.
+  destruct (opt_value flag toks None) as [v|]; [|discriminate].
+  destruct (all_digits v); [|discriminate]. injection H as <-. apply num_of_nonneg.
 Qed.
 
-Lemma wrapper_nparses_pos : forall (args : str) (np : Z),
-  wrapper_nparses args = Ok np -> (1 <= np)%Z.
+Theorem int_option_raise : forall (flag : char) (toks : list str) (e : exn),
+  int_option flag toks = Raise e -> e = ValueError.
 Proof.
-  intros args np H. unfold wrapper_nparses in H.
-  destruct (if has_flag ch_n args then int_opt ch_n args else Ok 2000%Z) as [n|] eqn:Hn;
-    [|discriminate].
-  destruct (if has_flag ch_x args then int_opt ch_x args else Ok 1%Z) as [x|] eqn:Hx;
-    [|discriminate].
+  intros flag toks e H. unfold int_option in H.
+  destruct (opt_value flag toks None) as [v|]; [|discriminate].
+  destruct (all_digits v); [discriminate|]. now injection H as <-.
+Qed.
+
+Lemma wrapper_nparses_pos : forall (toks : list str) (np : Z),
+  wrapper_nparses toks = Ok np -> (1 <= np)%Z.
+Proof.
+  intros toks np H. unfold wrapper_nparses in H.
+  destruct (int_option ch_n toks) as [on|] eqn:Hn; [|discriminate].
+  destruct (int_option ch_x toks) as [ox|] eqn:Hx; [|discriminate].
   cbn [bind] in H.
+  set (n := match on with Some n => n | None => 2000%Z end) in *.
+  set (x := match ox with Some x => x | None => 1%Z end) in *.
   assert (Hn0 : (0 <= n)%Z).
-  { destruct (has_flag ch_n args); [eapply int_opt_nonneg; eauto|injection Hn as <-; lia]. }
+  { subst n. destruct on as [z|]; [eapply int_option_nonneg; eauto|lia]. }
   assert (Hx0 : (0 <= x)%Z).
-  { destruct (has_flag ch_x args); [eapply int_opt_nonneg; eauto|injection Hx as <-; lia]. }
+  { subst x. destruct ox as [z|]; [eapply int_option_nonneg; eauto|lia]. }
   destruct (Z.eqb_spec x 0) as [|Hne]; [discriminate|]. injection H as <-.
   assert (0 <= (n + x - 1) / x)%Z by (apply Z.div_pos; lia). lia.
 Qed.
 
-Theorem effective_ignore_spec : forall (args : str) (np ignore : Z),
-  wrapper_nparses args = Ok np ->
+Theorem effective_ignore_spec : forall (toks : list str) (np ignore : Z),
+  wrapper_nparses toks = Ok np ->
   ((0 <= ignore)%Z ->
-   effective_ignore args ignore = if (np <=? ignore)%Z then Raise RuntimeError else Ok ignore) /\
-  ((ignore < 0)%Z -> effective_ignore args ignore = Ok (Z.max 0 (np + ignore))).
+   effective_ignore toks ignore = if (np <=? ignore)%Z then Raise RuntimeError else Ok ignore) /\
+  ((ignore < 0)%Z -> effective_ignore toks ignore = Ok (Z.max 0 (np + ignore))).
 Proof.
-  intros args np ignore H. pose proof (wrapper_nparses_pos args np H) as Hpos.
+  intros toks np ignore H. pose proof (wrapper_nparses_pos toks np H) as Hpos.
   unfold effective_ignore. rewrite H. cbn [bind]. split; intros Hi.
   - destruct (Z.ltb_spec ignore 0); [lia|reflexivity].
   - destruct (Z.ltb_spec ignore 0); [|lia].
@@ -374,17 +375,67 @@ Proof.
 Qed.
 
 (* asking for the last k parses (ignore = -k, k > 0) keeps min k np of them *)
-Corollary effective_ignore_last : forall (args : str) (np k : Z),
-  wrapper_nparses args = Ok np -> (0 < k)%Z ->
-  exists ig : Z, effective_ignore args (- k) = Ok ig /\ (np - ig = Z.min k np)%Z.
+Corollary effective_ignore_last : forall (toks : list str) (np k : Z),
+  wrapper_nparses toks = Ok np -> (0 < k)%Z ->
+  exists ig : Z, effective_ignore toks (- k) = Ok ig /\ (np - ig = Z.min k np)%Z.
 Proof.
-  intros args np k H Hk. destruct (effective_ignore_spec args np (- k) H) as [_ Hneg].
+  intros toks np k H Hk. destruct (effective_ignore_spec toks np (- k) H) as [_ Hneg].
   exists (Z.max 0 (np + - k)). split; [apply Hneg; lia|lia].
 Qed.
 
-Lemma effective_ignore_error : forall (args : str) (ignore : Z) (e : exn),
-  wrapper_nparses args = Raise e -> effective_ignore args ignore = Raise e.
-Proof. intros args ignore e H. unfold effective_ignore. now rewrite H. Qed.
+Lemma effective_ignore_error : forall (toks : list str) (ignore : Z) (e : exn),
+  wrapper_nparses toks = Raise e -> effective_ignore toks ignore = Raise e.
+Proof. intros toks ignore e H. unfold effective_ignore. now rewrite H. Qed.
+
+(* --- the token loop of _get_int_option --- *)
+
+Lemma is_flag_iff : forall (flag : char) (t : str), is_flag flag t = true <-> t = [45%N; flag].
+Proof. intros flag t. unfold is_flag. apply str_eqb_eq. Qed.
+
+Lemma is_flag_self : forall flag : char, is_flag flag [45%N; flag] = true.
+Proof. intros flag. apply is_flag_iff. reflexivity. Qed.
+
+(* the repaired defect: an argument that is neither the option nor its attached form, and
+   does not follow the option, plays no part *)
+Theorem opt_value_skip : forall (flag : char) (a : list str) (t : str) (b : list str) (acc : option str),
+  is_flag flag t = false -> attached flag t = None -> is_flag flag (last a []) = false ->
+  opt_value flag (a ++ t :: b) acc = opt_value flag (a ++ b) acc.
+Proof.
+  intros flag a t b acc Hf Ha. revert acc.
+  induction a as [|x a IH]; intros acc Hl.
+  - cbn [app opt_value]. now rewrite Hf, Ha.
+  - assert (Hl' : a <> [] -> is_flag flag (last a []) = false).
+    { intros Hne. destruct a as [|y a']; [congruence|exact Hl]. }
+    cbn [app opt_value]. destruct (is_flag flag x) eqn:Hx.
+    + destruct a as [|y a'].
+      * cbn [last] in Hl. congruence.
+      * cbn [app]. apply IH. apply Hl'. discriminate.
+    + destruct a as [|y a'].
+      * cbn [app opt_value]. rewrite Hf, Ha. destruct (attached flag x); reflexivity.
+      * destruct (attached flag x); apply IH; apply Hl'; discriminate.
+Qed.
+
+Corollary int_option_skip : forall (flag : char) (a : list str) (t : str) (b : list str),
+  is_flag flag t = false -> attached flag t = None -> is_flag flag (last a []) = false ->
+  int_option flag (a ++ t :: b) = int_option flag (a ++ b).
+Proof.
+  intros flag a t b Hf Ha Hl. unfold int_option. now rewrite opt_value_skip.
+Qed.
+
+Lemma opt_value_flag_last : forall (flag : char) (a : list str) (acc : option str),
+  opt_value flag (a ++ [[45%N; flag]]) acc = Some [].
+Proof.
+  intros flag a. induction a as [|x a IH]; intros acc.
+  - cbn [app opt_value]. now rewrite is_flag_self.
+  - cbn [app opt_value]. destruct (is_flag flag x); [apply IH|].
+    destruct (attached flag x); apply IH.
+Qed.
+
+(* the option as last argument has no value: ValueError (so the "-r is last" branch of
+   reseed is never reached) *)
+Theorem int_option_flag_last : forall (flag : char) (a : list str),
+  int_option flag (a ++ [[45%N; flag]]) = Raise ValueError.
+Proof. intros flag a. unfold int_option. now rewrite opt_value_flag_last. Qed.
 
 (* ====================================================================== *)
 (* a. yield_parses drops exactly the first [ignore] trees                  *)
@@ -453,17 +504,17 @@ Proof. intros lines k. rewrite yield_parses_skipn_gen. apply skipn_length. Qed.
 (* with effective_ignore: the wrapper keeps exactly np - ig of the first np trees,
    and for "the last k" (ignore = -k) that is min k np, when the output really
    has np trees *)
-Corollary yield_parses_last_k : forall (args : str) (lines : list str) (np k : Z),
-  wrapper_nparses args = Ok np -> (0 < k)%Z ->
+Corollary yield_parses_last_k : forall (toks : list str) (lines : list str) (np k : Z),
+  wrapper_nparses toks = Ok np -> (0 < k)%Z ->
   Z.of_nat (length (trees_of lines [])) = np ->
-  exists ig : Z, effective_ignore args (- k) = Ok ig /\
+  exists ig : Z, effective_ignore toks (- k) = Ok ig /\
                  Z.of_nat (length (yield_parses lines ig)) = Z.min k np.
 Proof.
-  intros args lines np k H Hk Hlen.
-  destruct (effective_ignore_last args np k H Hk) as (ig & Hig & Hmin).
+  intros toks lines np k H Hk Hlen.
+  destruct (effective_ignore_last toks np k H Hk) as (ig & Hig & Hmin).
   exists ig. split; [exact Hig|]. rewrite yield_parses_length.
-  pose proof (wrapper_nparses_pos args np H).
-  destruct (effective_ignore_spec args np (- k) H) as [_ Hneg].
+  pose proof (wrapper_nparses_pos toks np H).
+  destruct (effective_ignore_spec toks np (- k) H) as [_ Hneg].
   rewrite Hneg in Hig by lia. injection Hig as <-. lia.
 Qed.
 
@@ -713,18 +764,6 @@ Qed.
 (* e. seeds                                                                *)
 (* ====================================================================== *)
 
-Theorem setup_seed_given_length : forall (args : str) (nruns : nat) (l : list str),
-  setup_seed_given args nruns = Ok l -> length l = nruns.
-Proof.
-  intros args nruns l H. unfold setup_seed_given in H.
-  destruct (int_opt ch_r args); [|discriminate]. cbn [bind] in H. injection H as <-.
-  now rewrite map_length, seq_length.
-Qed.
-
-Theorem setup_seed_given_no_r : forall (args : str) (nruns : nat),
-  last_opt ch_r args = None -> setup_seed_given args nruns = Raise ValueError.
-Proof. intros args nruns H. unfold setup_seed_given, int_opt. now rewrite H. Qed.
-
 (* --- decimal rendering --- *)
 
 Lemma num_of_snoc : forall (ds : str) (c : char),
@@ -779,100 +818,6 @@ Proof.
   - rewrite app_nil_r in Hds. rewrite Hds. auto.
 Qed.
 
-(* --- the regular expression --- *)
-
-Lemma opt_at_eq : forall (flag : char) (s : str),
-  opt_at flag s =
-  match s with
-  | c :: f :: r =>
-    if ((c =? 45) && (f =? flag))%N
-    then match take_digits (skip_spaces r) with [] => None | ds => Some ds end
-    else None
-  | _ => None
-  end.
-Proof.
-  intros flag s. destruct s as [|c [|f r]]; [reflexivity| |].
-  - destruct c as [|p]; [reflexivity|].
-    do 6 (try (destruct p as [p|p|]; try reflexivity)).
-  - destruct c as [|p]; [reflexivity|].
-    do 6 (try (destruct p as [p|p|]; try reflexivity)).
-Qed.
-
-Lemma opt_at_nodash : forall (flag c : char) (s : str),
-  c <> 45%N -> opt_at flag (c :: s) = None.
-Proof.
-  intros flag c s H. rewrite opt_at_eq. destruct s as [|f r]; [reflexivity|].
-  destruct (N.eqb_spec c 45); [contradiction|reflexivity].
-Qed.
-
-Lemma last_opt_cons : forall (flag c : char) (s : str),
-  last_opt flag (c :: s) =
-  match last_opt flag s with Some d => Some d | None => opt_at flag (c :: s) end.
-Proof. reflexivity. Qed.
-
-Lemma last_opt_app_nodash : forall (flag : char) (a b : str),
-  Forall (fun c : char => c <> 45%N) a -> last_opt flag (a ++ b) = last_opt flag b.
-Proof.
-  intros flag a b H. induction H as [|c a Hc _ IH]; [reflexivity|].
-  cbn [app]. rewrite last_opt_cons, IH, opt_at_nodash by exact Hc.
-  destruct (last_opt flag b); reflexivity.
-Qed.
-
-Lemma has_flag_cons : forall (flag c : char) (s : str),
-  has_flag flag (c :: s) = false ->
-  has_flag flag s = false /\
-  (c <> 45%N \/ match s with f :: _ => f <> flag | [] => True end).
-Proof.
-  intros flag c s H. unfold has_flag in *. cbn [infix_b] in H.
-  apply orb_false_elim in H. destruct H as [Hp Hi]. split; [exact Hi|].
-  destruct (N.eqb_spec c 45) as [->|Hc]; [|left; exact Hc]. right.
-  destruct s as [|f r]; [exact I|]. cbn [prefix_b] in Hp.
-  rewrite N.eqb_refl, andb_true_r in Hp. cbn [andb] in Hp.
-  destruct (N.eqb_spec flag f); [discriminate|congruence].
-Qed.
-
-Lemma last_opt_noflag : forall (flag : char) (s : str),
-  has_flag flag s = false -> last_opt flag s = None.
-Proof.
-  intros flag s. induction s as [|c s IH]; intros H; [reflexivity|].
-  destruct (has_flag_cons flag c s H) as [Hs Hc].
-  rewrite last_opt_cons, (IH Hs), opt_at_eq.
-  destruct s as [|f r]; [reflexivity|].
-  destruct Hc as [Hc|Hc].
-  - destruct (N.eqb_spec c 45); [contradiction|reflexivity].
-  - destruct (N.eqb_spec f flag); [contradiction|]. now rewrite andb_false_r.
-Qed.
-
-Lemma last_opt_prefix : forall (flag : char) (a b : str) (d : str),
-  last_opt flag b = Some d -> last_opt flag (a ++ b) = Some d.
-Proof.
-  intros flag a b d H. induction a as [|c a IH]; [exact H|].
-  cbn [app]. now rewrite last_opt_cons, IH.
-Qed.
-
-Definition no_digit_head (s : str) : Prop :=
-  match s with [] => True | c :: _ => is_digit c = false end.
-
-Lemma take_digits_app : forall ds post : str,
-  forallb is_digit ds = true -> no_digit_head post -> take_digits (ds ++ post) = ds.
-Proof.
-  induction ds as [|c ds IH]; intros post Hall Hp.
-  - destruct post as [|c r]; [reflexivity|]. cbn [app take_digits]. cbn in Hp. now rewrite Hp.
-  - cbn [forallb] in Hall. apply andb_true_iff in Hall. destruct Hall as [Hc Hall].
-    cbn [app take_digits]. rewrite Hc, IH by assumption. reflexivity.
-Qed.
-
-Lemma skip_spaces_app : forall spaces s : str,
-  Forall (fun c : char => c = sp) spaces ->
-  match s with [] => True | c :: _ => c <> sp end ->
-  skip_spaces (spaces ++ s) = s.
-Proof.
-  intros spaces s H Hs. induction H as [|c spaces -> _ IH].
-  - destruct s as [|c r]; [reflexivity|]. cbn [app skip_spaces].
-    destruct (N.eqb_spec c sp); [contradiction|reflexivity].
-  - cbn [app skip_spaces]. rewrite N.eqb_refl. exact IH.
-Qed.
-
 Lemma digit_not_sp : forall c : char, is_digit c = true -> c <> sp.
 Proof.
   intros c H ->. discriminate.
@@ -883,182 +828,264 @@ Proof.
   intros c H ->. discriminate.
 Qed.
 
-Lemma digits_head_not_sp : forall ds post : str,
-  ds <> [] -> forallb is_digit ds = true ->
-  match ds ++ post with [] => True | c :: _ => c <> sp end.
+Lemma all_digits_iff : forall s : str, all_digits s = true <-> s <> [] /\ forallb is_digit s = true.
 Proof.
-  intros [|c ds] post Hne Hall; [congruence|]. cbn [app]. cbn [forallb] in Hall.
-  apply andb_true_iff in Hall. apply digit_not_sp. tauto.
+  intros [|c s]; cbn [all_digits].
+  - split; [discriminate|]. intros [H _]. congruence.
+  - split; [intros H; split; [discriminate|exact H]|intros [_ H]; exact H].
 Qed.
 
-Lemma opt_at_match : forall (flag : char) (spaces ds post : str),
-  Forall (fun c : char => c = sp) spaces ->
-  ds <> [] -> forallb is_digit ds = true -> no_digit_head post ->
-  opt_at flag (45%N :: flag :: spaces ++ ds ++ post) = Some ds.
+Lemma str_of_Z_all_digits : forall z : Z, (0 <= z)%Z -> all_digits (str_of_Z z) = true.
 Proof.
-  intros flag spaces ds post Hsp Hne Hall Hp.
-  rewrite opt_at_eq, !N.eqb_refl. cbn [andb].
-  rewrite skip_spaces_app by (try exact Hsp; apply digits_head_not_sp; assumption).
-  rewrite take_digits_app by assumption. destruct ds; [congruence|reflexivity].
+  intros z Hz. destruct (str_of_Z_spec z Hz) as (Hne & Hall & _).
+  apply all_digits_iff. now split.
 Qed.
 
-Lemma nodash_mid : forall spaces ds : str,
-  Forall (fun c : char => c = sp) spaces -> forallb is_digit ds = true ->
-  Forall (fun c : char => c <> 45%N) (spaces ++ ds).
+(* a string of digits is neither the option nor its attached form *)
+Lemma all_digits_not_flag : forall (flag : char) (s : str), all_digits s = true -> is_flag flag s = false.
 Proof.
-  intros spaces ds Hsp Hall. apply Forall_app. split.
-  - eapply Forall_impl; [|exact Hsp]. intros c ->. discriminate.
-  - apply Forall_forall. intros c Hc. apply digit_not_dash.
-    rewrite forallb_forall in Hall. auto.
+  intros flag s H. destruct (is_flag flag s) eqn:E; [|reflexivity].
+  apply is_flag_iff in E. subst s. discriminate.
 Qed.
 
-(* the last "-X *digits" of a string with exactly one such option *)
-Lemma last_opt_single : forall (flag : char) (pre spaces ds post : str),
-  flag <> 45%N ->
-  Forall (fun c : char => c = sp) spaces ->
-  ds <> [] -> forallb is_digit ds = true -> no_digit_head post ->
-  has_flag flag post = false ->
-  last_opt flag (pre ++ 45%N :: flag :: spaces ++ ds ++ post) = Some ds.
+Lemma all_digits_not_attached : forall (flag : char) (s : str), all_digits s = true -> attached flag s = None.
 Proof.
-  intros flag pre spaces ds post Hflag Hsp Hne Hall Hp Hpost.
-  apply last_opt_prefix. rewrite last_opt_cons.
-  change (flag :: spaces ++ ds ++ post) with ((flag :: spaces) ++ ds ++ post).
-  rewrite app_assoc.
-  rewrite (last_opt_app_nodash flag ((flag :: spaces) ++ ds) post).
-  - rewrite (last_opt_noflag flag post Hpost). rewrite <- app_assoc.
-    change ((flag :: spaces) ++ ds ++ post) with (flag :: spaces ++ ds ++ post).
-    apply opt_at_match; assumption.
-  - change ((flag :: spaces) ++ ds) with (flag :: (spaces ++ ds)). constructor; [exact Hflag|].
-    apply nodash_mid; assumption.
+  intros flag [|c s] H; [reflexivity|]. cbn [all_digits forallb] in H.
+  apply andb_true_iff in H. destruct H as [Hc _]. apply digit_not_dash in Hc.
+  unfold attached. destruct c as [|p]; [reflexivity|].
+  do 6 (try (destruct p as [p|p|]; try reflexivity)). congruence.
+Qed.
+
+(* --- reading the options of a token list --- *)
+
+Lemma opt_value_some : forall (flag : char) (toks : list str) (v : str),
+  opt_value flag toks (Some v) <> None.
+Proof.
+  intros flag toks. induction toks as [|t r IH]; intros v; cbn [opt_value]; [discriminate|].
+  destruct (is_flag flag t); [apply IH|]. destruct (attached flag t); apply IH.
+Qed.
+
+(* no option at all: every token is kept by [unseeded], and the tokens in front do not matter *)
+Lemma opt_value_none_inv : forall (flag : char) (t : str) (r : list str),
+  opt_value flag (t :: r) None = None ->
+  is_flag flag t = false /\ attached flag t = None /\ opt_value flag r None = None.
+Proof.
+  intros flag t r H. cbn [opt_value] in H.
+  destruct (is_flag flag t); [exfalso; exact (opt_value_some _ _ _ H)|].
+  destruct (attached flag t); [exfalso; exact (opt_value_some _ _ _ H)|]. auto.
+Qed.
+
+Lemma opt_value_none_app : forall (flag : char) (a b : list str) (acc : option str),
+  opt_value flag a None = None -> opt_value flag (a ++ b) acc = opt_value flag b acc.
+Proof.
+  intros flag a b acc. induction a as [|t r IH]; intros H; [reflexivity|].
+  destruct (opt_value_none_inv flag t r H) as (Hf & Ha & Hr).
+  cbn [app opt_value]. rewrite Hf, Ha. apply IH. exact Hr.
+Qed.
+
+Lemma unseeded_none_app : forall a b : list str,
+  opt_value ch_r a None = None -> unseeded (a ++ b) = a ++ unseeded b.
+Proof.
+  intros a b. induction a as [|t r IH]; intros H; [reflexivity|].
+  destruct (opt_value_none_inv ch_r t r H) as (Hf & Ha & Hr).
+  cbn [app unseeded]. rewrite Hf, Ha. f_equal. apply IH. exact Hr.
+Qed.
+
+Lemma int_option_none_inv : forall (flag : char) (toks : list str),
+  int_option flag toks = Ok None -> opt_value flag toks None = None.
+Proof.
+  intros flag toks H. unfold int_option in H.
+  destruct (opt_value flag toks None) as [v|]; [|reflexivity].
+  destruct (all_digits v); discriminate.
+Qed.
+
+Lemma int_option_some_inv : forall (flag : char) (toks : list str) (z : Z),
+  int_option flag toks = Ok (Some z) -> opt_value flag toks None <> None.
+Proof.
+  intros flag toks z H E. unfold int_option in H. rewrite E in H. discriminate.
 Qed.
 
 (* --- the substitution --- *)
 
-Lemma sub_seed_noflag : forall (s : str) (fuel : nat) (new : str),
-  has_flag ch_r s = false -> length s <= fuel -> sub_seed fuel s new = s.
+Lemma reseed_unseeded_len : forall (n : nat) (toks : list str) (new : str),
+  length toks <= n -> unseeded (reseed toks new) = unseeded toks.
 Proof.
-  induction s as [|c s IH]; intros fuel new H Hlen.
-  - destruct fuel; reflexivity.
-  - destruct fuel as [|f]; [cbn [length] in Hlen; lia|].
-    destruct (has_flag_cons ch_r c s H) as [Hs Hc].
-    assert (Ho : opt_at ch_r (c :: s) = None).
-    { rewrite opt_at_eq. destruct s as [|f0 r]; [reflexivity|]. destruct Hc as [Hc|Hc].
-      - destruct (N.eqb_spec c 45); [contradiction|reflexivity].
-      - destruct (N.eqb_spec f0 ch_r); [contradiction|]. now rewrite andb_false_r. }
-    cbn [sub_seed]. rewrite Ho. rewrite IH; [reflexivity|exact Hs|cbn [length] in Hlen; lia].
+  induction n as [|n IH]; intros toks new Hlen.
+  - destruct toks; [reflexivity|cbn [length] in Hlen; lia].
+  - destruct toks as [|t r]; [reflexivity|]. cbn [length] in Hlen.
+    cbn [reseed unseeded]. destruct (is_flag ch_r t) eqn:Hf.
+    + cbn [unseeded]. rewrite is_flag_self.
+      destruct r as [|v r']; [reflexivity|]. apply IH. cbn [length] in Hlen. lia.
+    + destruct (attached ch_r t) eqn:Ha.
+      * cbn [unseeded]. rewrite is_flag_self. apply IH. lia.
+      * cbn [unseeded]. rewrite Hf, Ha. f_equal. apply IH. lia.
 Qed.
 
-Lemma sub_seed_pre : forall (pre : str) (fuel : nat) (rest new : str),
-  has_flag ch_r pre = false -> length pre <= fuel ->
-  sub_seed fuel (pre ++ 45%N :: rest) new = pre ++ sub_seed (fuel - length pre) (45%N :: rest) new.
+Theorem reseed_unseeded : forall (toks : list str) (new : str), unseeded (reseed toks new) = unseeded toks.
+Proof. intros toks new. apply (reseed_unseeded_len (length toks)). lia. Qed.
+
+Lemma reseed_value_kept_len : forall (n : nat) (toks : list str) (new : str),
+  all_digits new = true -> length toks <= n ->
+  opt_value ch_r (reseed toks new) (Some new) = Some new.
 Proof.
-  induction pre as [|c pre IH]; intros fuel rest new H Hlen.
-  - cbn [app length]. now rewrite Nat.sub_0_r.
-  - destruct fuel as [|f]; [cbn [length] in Hlen; lia|].
-    destruct (has_flag_cons ch_r c pre H) as [Hs Hc].
-    assert (Ho : opt_at ch_r (c :: pre ++ 45%N :: rest) = None).
-    { rewrite opt_at_eq. destruct pre as [|f0 r]; cbn [app].
-      - change (45 =? ch_r)%N with false. now rewrite andb_false_r.
-      - destruct Hc as [Hc|Hc].
-        + destruct (N.eqb_spec c 45); [contradiction|reflexivity].
-        + destruct (N.eqb_spec f0 ch_r); [contradiction|]. now rewrite andb_false_r. }
-    cbn [app sub_seed length Nat.sub]. rewrite Ho.
-    rewrite IH; [reflexivity|exact Hs|cbn [length] in Hlen; lia].
+  intros n toks new Hnew. pose proof (all_digits_not_flag ch_r new Hnew) as Hnf.
+  pose proof (all_digits_not_attached ch_r new Hnew) as Hna.
+  revert toks. induction n as [|n IH]; intros toks Hlen.
+  - destruct toks; [reflexivity|cbn [length] in Hlen; lia].
+  - destruct toks as [|t r]; [reflexivity|]. cbn [length] in Hlen.
+    cbn [reseed]. destruct (is_flag ch_r t) eqn:Hf.
+    + cbn [opt_value]. rewrite is_flag_self, Hnf, Hna.
+      destruct r as [|v r']; [reflexivity|]. apply IH. cbn [length] in Hlen. lia.
+    + destruct (attached ch_r t) eqn:Ha.
+      * cbn [opt_value]. rewrite is_flag_self, Hnf, Hna. apply IH. lia.
+      * cbn [opt_value]. rewrite Hf, Ha. apply IH. lia.
 Qed.
 
-Lemma skipn_length_app : forall (A : Type) (a b : list A), skipn (length a) (a ++ b) = b.
-Proof. intros A a b. induction a as [|x a IH]; [reflexivity|exact IH]. Qed.
-
-Lemma sub_seed_match : forall (f : nat) (spaces ds post new : str),
-  Forall (fun c : char => c = sp) spaces ->
-  ds <> [] -> forallb is_digit ds = true -> no_digit_head post ->
-  sub_seed (S f) (45%N :: ch_r :: spaces ++ ds ++ post) new =
-  [45%N; ch_r; sp] ++ new ++ sub_seed f post new.
+Lemma reseed_value : forall (toks : list str) (new : str),
+  all_digits new = true -> opt_value ch_r toks None <> None ->
+  opt_value ch_r (reseed toks new) None = Some new.
 Proof.
-  intros f spaces ds post new Hsp Hne Hall Hp.
-  cbn [sub_seed]. rewrite (opt_at_match ch_r spaces ds post Hsp Hne Hall Hp).
-  cbn [skipn].
-  rewrite skip_spaces_app by (try exact Hsp; apply digits_head_not_sp; assumption).
-  now rewrite skipn_length_app.
+  intros toks new Hnew. pose proof (all_digits_not_flag ch_r new Hnew) as Hnf.
+  pose proof (all_digits_not_attached ch_r new Hnew) as Hna.
+  induction toks as [|t r IH]; intros H; [cbn [opt_value] in H; congruence|].
+  cbn [opt_value] in H. cbn [reseed]. destruct (is_flag ch_r t) eqn:Hf.
+  - cbn [opt_value]. rewrite is_flag_self, Hnf, Hna.
+    destruct r as [|v r']; [reflexivity|].
+    apply (reseed_value_kept_len (length r')); [exact Hnew|lia].
+  - destruct (attached ch_r t) eqn:Ha.
+    + cbn [opt_value]. rewrite is_flag_self, Hnf, Hna.
+      apply (reseed_value_kept_len (length r)); [exact Hnew|lia].
+    + cbn [opt_value]. rewrite Hf, Ha. apply IH. exact H.
 Qed.
 
-Theorem sub_seed_single : forall (pre spaces ds post new : str),
-  has_flag ch_r pre = false ->
-  Forall (fun c : char => c = sp) spaces ->
-  ds <> [] -> forallb is_digit ds = true -> no_digit_head post ->
-  has_flag ch_r post = false ->
-  let args := pre ++ 45%N :: ch_r :: spaces ++ ds ++ post in
-  sub_seed (S (length args)) args new = pre ++ [45%N; ch_r; sp] ++ new ++ post.
+Theorem reseed_reads_back : forall (toks : list str) (new : str),
+  all_digits new = true -> opt_value ch_r toks None <> None ->
+  int_option ch_r (reseed toks new) = Ok (Some (num_of new)).
 Proof.
-  intros pre spaces ds post new Hpre Hsp Hne Hall Hp Hpost args. subst args.
-  rewrite sub_seed_pre; [|exact Hpre|rewrite app_length; lia].
-  f_equal.
-  remember (S (length (pre ++ 45%N :: ch_r :: spaces ++ ds ++ post)) - length pre) as fuel eqn:Hf.
-  rewrite app_length in Hf. cbn [length] in Hf. rewrite !app_length in Hf.
-  destruct fuel as [|f]; [lia|].
-  rewrite sub_seed_match by assumption.
-  rewrite sub_seed_noflag; [reflexivity|exact Hpost|lia].
+  intros toks new Hnew H. unfold int_option. rewrite reseed_value by assumption. now rewrite Hnew.
 Qed.
 
-(* For arguments carrying exactly one "-r *digits", run i gets the same
-   arguments with seed s + i, and the wrapper reads that seed back. *)
-Theorem setup_seed_given_spec : forall (pre spaces ds post : str) (nruns : nat),
-  has_flag ch_r pre = false ->
-  Forall (fun c : char => c = sp) spaces ->
-  ds <> [] -> forallb is_digit ds = true -> no_digit_head post ->
-  has_flag ch_r post = false ->
-  let args := pre ++ 45%N :: ch_r :: spaces ++ ds ++ post in
-  int_opt ch_r args = Ok (num_of ds) /\
-  setup_seed_given args nruns =
-  Ok (map (fun i : nat => pre ++ [45%N; ch_r; sp] ++ str_of_Z (num_of ds + Z.of_nat i) ++ post)
-          (seq 0 nruns)).
-Proof.
-  intros pre spaces ds post nruns Hpre Hsp Hne Hall Hp Hpost args.
-  assert (Hint : int_opt ch_r args = Ok (num_of ds)).
-  { unfold int_opt, args. rewrite last_opt_single; try assumption; [reflexivity|discriminate]. }
-  split; [exact Hint|]. unfold setup_seed_given. rewrite Hint. cbn [bind]. f_equal.
-  apply map_ext. intros i. apply sub_seed_single; assumption.
-Qed.
+(* --- _setup_seed --- *)
 
-Theorem seeded_args_int_opt : forall (pre post : str) (z : Z),
-  (0 <= z)%Z -> no_digit_head post -> has_flag ch_r post = false ->
-  int_opt ch_r (pre ++ [45%N; ch_r; sp] ++ str_of_Z z ++ post) = Ok z.
-Proof.
-  intros pre post z Hz Hp Hpost. destruct (str_of_Z_spec z Hz) as (Hne & Hall & Hnum).
-  unfold int_opt.
-  change (pre ++ [45%N; ch_r; sp] ++ str_of_Z z ++ post)
-    with (pre ++ 45%N :: ch_r :: [sp] ++ str_of_Z z ++ post).
-  rewrite last_opt_single; try assumption.
-  - now rewrite Hnum.
-  - discriminate.
-  - constructor; [reflexivity|constructor].
-Qed.
+Theorem setup_seed_given_spec : forall (toks : list str) (nruns : nat) (rnd : list Z) (seed : Z),
+  int_option ch_r toks = Ok (Some seed) ->
+  setup_seed toks nruns rnd = Ok (map (fun i : nat => reseed toks (str_of_Z (seed + Z.of_nat i))) (seq 0 nruns)).
+Proof. intros toks nruns rnd seed H. unfold setup_seed. rewrite H. reflexivity. Qed.
 
-(* the i-th run is started with seed s + i; the argument strings are pairwise distinct *)
-Theorem setup_seed_given_seeds : forall (pre spaces ds post : str) (nruns : nat) (l : list str),
-  has_flag ch_r pre = false ->
-  Forall (fun c : char => c = sp) spaces ->
-  ds <> [] -> forallb is_digit ds = true -> no_digit_head post ->
-  has_flag ch_r post = false ->
-  setup_seed_given (pre ++ 45%N :: ch_r :: spaces ++ ds ++ post) nruns = Ok l ->
+(* run i is started with seed s + i, nothing else changes, and the argument lists are pairwise distinct *)
+Theorem setup_seed_given_seeds : forall (toks : list str) (nruns : nat) (rnd : list Z) (seed : Z) (l : list (list str)),
+  int_option ch_r toks = Ok (Some seed) -> setup_seed toks nruns rnd = Ok l ->
   length l = nruns /\
-  (forall i : nat, i < nruns -> int_opt ch_r (nth i l []) = Ok (num_of ds + Z.of_nat i)%Z) /\
+  (forall i : nat, i < nruns ->
+     int_option ch_r (nth i l []) = Ok (Some (seed + Z.of_nat i)%Z) /\ unseeded (nth i l []) = unseeded toks) /\
   NoDup l.
 Proof.
-  intros pre spaces ds post nruns l Hpre Hsp Hne Hall Hp Hpost H.
-  destruct (setup_seed_given_spec pre spaces ds post nruns Hpre Hsp Hne Hall Hp Hpost) as [_ Hspec].
-  rewrite Hspec in H. injection H as <-.
-  set (g := fun i : nat => pre ++ [45%N; ch_r; sp] ++ str_of_Z (num_of ds + Z.of_nat i) ++ post).
-  assert (Hg : forall i : nat, int_opt ch_r (g i) = Ok (num_of ds + Z.of_nat i)%Z).
-  { intros i. apply seeded_args_int_opt; try assumption. pose proof (num_of_nonneg ds). lia. }
+  intros toks nruns rnd seed l Hs H.
+  rewrite (setup_seed_given_spec toks nruns rnd seed Hs) in H. injection H as <-.
+  pose proof (int_option_nonneg _ _ _ Hs) as Hpos.
+  pose proof (int_option_some_inv _ _ _ Hs) as Hsome.
+  set (g := fun i : nat => reseed toks (str_of_Z (seed + Z.of_nat i))).
+  assert (Hg : forall i : nat, int_option ch_r (g i) = Ok (Some (seed + Z.of_nat i)%Z)).
+  { intros i. unfold g. rewrite reseed_reads_back; [|apply str_of_Z_all_digits; lia|exact Hsome].
+    destruct (str_of_Z_spec (seed + Z.of_nat i) ltac:(lia)) as (_ & _ & ->). reflexivity. }
   split; [now rewrite map_length, seq_length|]. split.
   - intros i Hi.
     rewrite (nth_indep _ [] (g 0)) by (rewrite map_length, seq_length; exact Hi).
-    rewrite (map_nth g), seq_nth by exact Hi. cbn [plus]. apply Hg.
+    rewrite (map_nth g), seq_nth by exact Hi. cbn [plus]. split; [apply Hg|].
+    unfold g. apply reseed_unseeded.
   - apply FinFun.Injective_map_NoDup; [|apply seq_NoDup].
     intros i j Hij. change (g i = g j) in Hij.
     pose proof (Hg i) as Hi. rewrite Hij, Hg in Hi. injection Hi. lia.
 Qed.
+
+Lemma nth_firstn_lt : forall (A : Type) (d : A) (l : list A) (n i : nat),
+  i < n -> nth i (firstn n l) d = nth i l d.
+Proof.
+  intros A d l. induction l as [|x l IH]; intros n i Hi.
+  - now rewrite firstn_nil.
+  - destruct n as [|n]; [lia|]. cbn [firstn]. destruct i as [|i]; [reflexivity|].
+    cbn [nth]. apply IH. lia.
+Qed.
+
+(* no -r given: one drawn seed per run, appended; it is read back *)
+Theorem setup_seed_absent : forall (toks : list str) (nruns : nat) (rnd : list Z),
+  int_option ch_r toks = Ok None -> Forall (fun z : Z => (0 <= z)%Z) rnd ->
+  exists l : list (list str), setup_seed toks nruns rnd = Ok l /\ length l = Nat.min nruns (length rnd) /\
+    forall i : nat, i < length l ->
+      nth i l [] = toks ++ [[45%N; ch_r]; str_of_Z (nth i rnd 0%Z)] /\
+      int_option ch_r (nth i l []) = Ok (Some (nth i rnd 0%Z)) /\ unseeded (nth i l []) = toks.
+Proof.
+  intros toks nruns rnd Hs Hrnd.
+  pose proof (int_option_none_inv _ _ Hs) as Hnone.
+  set (g := fun z : Z => toks ++ [[45%N; ch_r]; str_of_Z z]).
+  exists (map g (firstn nruns rnd)). split; [unfold setup_seed; rewrite Hs; reflexivity|].
+  split; [now rewrite map_length, firstn_length|].
+  intros i Hi. rewrite map_length, firstn_length in Hi.
+  assert (Hnth : nth i (map g (firstn nruns rnd)) [] = g (nth i rnd 0%Z)).
+  { rewrite (nth_indep _ [] (g 0%Z)) by (rewrite map_length, firstn_length; exact Hi).
+    rewrite (map_nth g). f_equal. apply nth_firstn_lt. lia. }
+  rewrite Hnth.
+  assert (Hz : (0 <= nth i rnd 0)%Z).
+  { rewrite Forall_forall in Hrnd. apply Hrnd. apply nth_In. lia. }
+  set (z := nth i rnd 0%Z) in *.
+  pose proof (str_of_Z_all_digits z Hz) as Hd.
+  destruct (str_of_Z_spec z Hz) as (_ & _ & Hnum).
+  split; [reflexivity|]. split.
+  - unfold g, int_option. rewrite opt_value_none_app by exact Hnone.
+    cbn [opt_value]. rewrite is_flag_self.
+    rewrite (all_digits_not_flag ch_r _ Hd), (all_digits_not_attached ch_r _ Hd).
+    now rewrite Hd, Hnum.
+  - unfold g. rewrite unseeded_none_app by exact Hnone.
+    cbn [unseeded]. rewrite is_flag_self. apply app_nil_r.
+Qed.
+
+Theorem setup_seed_errors : forall (toks : list str) (nruns : nat) (rnd : list Z) (e : exn),
+  setup_seed toks nruns rnd = Raise e -> e = ValueError /\ int_option ch_r toks = Raise ValueError.
+Proof.
+  intros toks nruns rnd e H. unfold setup_seed in H.
+  destruct (int_option ch_r toks) as [[s|]|e'] eqn:E; cbn [bind] in H; try discriminate.
+  injection H as <-. pose proof (int_option_raise _ _ _ E) as ->. auto.
+Qed.
+
+(* --- non-vacuity / the formerly failing inputs --- *)
+
+(* -d 100 -G /tmp/c17-r1m5/g.out : "-r1" inside a file name *)
+Example path_with_r_is_not_the_option :
+  int_option ch_r [[45;100]; [49;48;48]; [45;71]; [47;116;109;112;47;99;49;55;45;114;49;109;53;47;103;46;111;117;116]]%N = Ok None.
+Proof. vm_compute. reflexivity. Qed.
+
+(* the same path after a genuine "-r 7": the seed is 7, not 1 *)
+Example path_with_r_after_seed :
+  int_option ch_r [[45;114]; [55]; [45;71]; [47;116;109;112;47;99;49;55;45;114;49;109;53;47;103;46;111;117;116]]%N = Ok (Some 7%Z).
+Proof. vm_compute. reflexivity. Qed.
+
+(* -n 10 -r 5 -x 2, three runs: seeds 5, 6, 7 *)
+Example seeds_example :
+  setup_seed [[45;110]; [49;48]; [45;114]; [53]; [45;120]; [50]]%N 3 [] =
+  Ok [ [[45;110]; [49;48]; [45;114]; [53]; [45;120]; [50]];
+       [[45;110]; [49;48]; [45;114]; [54]; [45;120]; [50]];
+       [[45;110]; [49;48]; [45;114]; [55]; [45;120]; [50]] ]%N.
+Proof. vm_compute. reflexivity. Qed.
+
+(* the attached form -r9 is normalised to "-r" "9", "-r" "10" *)
+Example seeds_example_attached :
+  setup_seed [[45;114;57]; [45;120]; [50]]%N 2 [] =
+  Ok [ [[45;114]; [57]; [45;120]; [50]];
+       [[45;114]; [49;48]; [45;120]; [50]] ]%N.
+Proof. vm_compute. reflexivity. Qed.
+
+(* no -r: the drawn seeds are appended *)
+Example seeds_example_absent :
+  setup_seed [[45;110]; [49;48]]%N 2 [42; 7]%Z =
+  Ok [ [[45;110]; [49;48]; [45;114]; [52;50]];
+       [[45;110]; [49;48]; [45;114]; [55]] ]%N.
+Proof. vm_compute. reflexivity. Qed.
+
+(* "-r" as last argument, "-r" followed by a non-number *)
+Example seed_flag_last : setup_seed [[45;110]; [49;48]; [45;114]]%N 2 [1; 2]%Z = Raise ValueError.
+Proof. vm_compute. reflexivity. Qed.
+Example seed_not_a_number : setup_seed [[45;114]; [97]]%N 2 [1; 2]%Z = Raise ValueError.
+Proof. vm_compute. reflexivity. Qed.
 
 (* ====================================================================== *)
 (* f. the segmentation does not depend on the order in which the runs are
@@ -1201,12 +1228,12 @@ Proof.
 Qed.
 
 Theorem segment_run_order_invariant :
-  forall (nutts : nat) (args : str) (ignore : Z) (runs1 runs2 : list (list str)),
+  forall (nutts : nat) (toks : list str) (ignore : Z) (runs1 runs2 : list (list str)),
   Permutation runs1 runs2 ->
-  segment_from_outputs nutts args ignore runs1 = segment_from_outputs nutts args ignore runs2.
+  segment_from_outputs nutts toks ignore runs1 = segment_from_outputs nutts toks ignore runs2.
 Proof.
-  intros n args ignore runs1 runs2 Hp. unfold segment_from_outputs.
-  destruct (effective_ignore args ignore) as [ig|e]; [|reflexivity]. cbn [bind].
+  intros n toks ignore runs1 runs2 Hp. unfold segment_from_outputs.
+  destruct (effective_ignore toks ignore) as [ig|e]; [|reflexivity]. cbn [bind].
   set (pc1 := fold_left (fun (pc : pcounter) (lines : list str) => postprocess pc lines ig) runs1 (pc_init n)).
   set (pc2 := fold_left (fun (pc : pcounter) (lines : list str) => postprocess pc lines ig) runs2 (pc_init n)).
   pose proof (fold_postprocess runs1 ig (pc_init n)) as H1. fold pc1 in H1.
